@@ -162,8 +162,12 @@ fn gen_leaf(rng: &mut Rng, cfg: &GenCfg) -> Leaf {
                 let scale = match rng.below(6) { 0 | 1 | 2 | 3 => 1, 4 => rng.range_usize(2, 1000), _ => 1 << rng.range(10, 40) };
                 Leaf::Rl { c: gen_bits(rng, m * 4), scale, route: rng.below(2) as u8 }
             },
-            18 => Leaf::WmCore { c: gen_content(rng, m / 4), width: rng.range_usize(1, 11), ity: rng.below(5) as u8 },
-            _ => Leaf::Wm { c: gen_content(rng, m / 4), width: rng.range_usize(1, 11), ity: rng.below(5) as u8 },
+            18 => {
+                // The core has no per-value table, so every width up to 64 is affordable.
+                let width = match rng.below(4) { 0 => *rng.pick(&[1usize, 8, 9, 16, 17, 31, 32, 33, 63, 64]), 1 => rng.range_usize(12, 64), _ => rng.range_usize(1, 11) };
+                Leaf::WmCore { c: gen_content(rng, m / 4), width, ity: rng.below(5) as u8 }
+            },
+            _ => Leaf::Wm { c: gen_content(rng, m / 4), width: if rng.chance(1, 10) { rng.range_usize(12, 14) } else { rng.range_usize(1, 11) }, ity: rng.below(5) as u8 },
         };
     }
 }
@@ -849,7 +853,8 @@ pub fn build_rl(c: &Content, scale: usize, route: u8) -> RLVector {
 
 pub fn wm_values(c: &Content, width: usize) -> Vec<u64> {
     let mask = if width >= 64 { u64::MAX } else { (1u64 << width) - 1 };
-    c.words().into_iter().map(|w| (w ^ (w >> 17)) & mask).collect()
+    // Make sure the top bit of the width is used by some value, so that the structure really has `width` levels.
+    c.words().into_iter().enumerate().map(|(i, w)| { let v = (w ^ (w >> 17)) & mask; if i == 0 && width > 0 { v | (1u64 << (width.min(64) - 1)) } else { v } }).collect()
 }
 
 macro_rules! by_ity {
@@ -864,13 +869,17 @@ macro_rules! by_ity {
     };
 }
 
+fn ity_width(width: usize, ity: u8) -> usize {
+    match ity { 0 => width.min(8), 1 => width.min(16), 2 => width.min(32), _ => width }
+}
+
 pub fn build_wm_core(c: &Content, width: usize, ity: u8) -> WMCore {
-    let vals = wm_values(c, if ity == 0 { width.min(8) } else { width });
+    let vals = wm_values(c, ity_width(width, ity));
     by_ity!(ity, vals, WMCore)
 }
 
 pub fn build_wm(c: &Content, width: usize, ity: u8) -> WaveletMatrix {
-    let vals = wm_values(c, if ity == 0 { width.min(8) } else { width });
+    let vals = wm_values(c, ity_width(width, ity).min(16));
     by_ity!(ity, vals, WaveletMatrix)
 }
 
